@@ -179,13 +179,14 @@ def r01_1(ctx):
     feeder_state_is_per_sequence(ctx, 'R01.1')
 
 
-def feeder_serves_while_running(ctx, rule):
+def feeder_serves_while_running(ctx, rule, parts='ab'):
     """TaskHandler.body: (a) the thread stops feeding (leaves the loop over the task queue) only when
     the pool state is no longer RUN, the queue sentinel arrived or the pipe broke -- never because one
     task could not be sent; (b) the state is re-checked before *every* task is put, so that
     terminate() is noticed in the middle of a long sequence."""
-    ctx.rule(rule, 'the task feeder stops only on state change / sentinel / broken pipe, and re-checks the '
-                   'state before every put', floor=2)
+    ctx.rule(rule, ' and '.join(t for k, t in (('a', 'the task feeder stops only on state change / sentinel / broken pipe'),
+                                              ('b', 'the task feeder re-checks the state before every put'))
+                                if k in parts), floor=1)
     m = ctx.model
     fi = m.func('pool:TaskHandler.body')
     cfg = fi.cfg
@@ -202,11 +203,14 @@ def feeder_serves_while_running(ctx, rule):
         on_state = q.has_guard(fi, b, 'self._state', True) or q.has_guard(fi, b, q.eq_text('self._state', 'RUN'), False)
         if not (in_io or on_state):
             bad.append(b)
-    ctx.ob(rule, 'TaskHandler.body:feeding-stops-only-on-state-change-or-broken-pipe', not bad, fi,
-           bad[0] if bad else inner,
-           'every break out of the feeding loop is under `self._state` or in an I/O-error handler' if not bad else
-           'a failure to send one task ends the feeder thread while the pool still reports RUN: every later job '
-           'is accepted and never runs')
+    if 'a' in parts:
+        ctx.ob(rule, 'TaskHandler.body:feeding-stops-only-on-state-change-or-broken-pipe', not bad, fi,
+               bad[0] if bad else inner,
+               'every break out of the feeding loop is under `self._state` or in an I/O-error handler' if not bad else
+               'a failure to send one task ends the feeder thread while the pool still reports RUN: every later job '
+               'is accepted and never runs')
+    if 'b' not in parts:
+        return
     puts = [n for (n, c) in q.calls(fi, 'self.put') if q.inside(fi, n, inner.stmt.body)]
     tests = [t for t in cfg.where(lambda t: t.kind == 'test' and q.inside(fi, t, inner.stmt.body))
              if q.norm_guard(fi, t.ast, True)[0] in ('self._state', q.eq_text('self._state', 'RUN'))]
@@ -543,7 +547,7 @@ def run(ctx):
     r04_5(ctx)
     from .c03 import r03_5
     r03_5(ctx)
-    feeder_serves_while_running(ctx, 'R01.7')
+    feeder_serves_while_running(ctx, 'R01.7', parts='a')
     ctx.assume('messages on one pipe are delivered in order and not lost by the kernel')
 
 
@@ -551,8 +555,6 @@ _P = 'billiard/pool.py'
 MUTANTS = [
     ('feeder-ends-after-one-bad-task', _P, "                            cache[job]._set(ind, (False, ExceptionInfo()))\n                        except KeyError:\n                            pass\n",
      "                            cache[job]._set(ind, (False, ExceptionInfo()))\n                        except KeyError:\n                            pass\n                        break\n", 'R01.7'),
-    ('feeder-state-checked-once-per-sequence', _P, "                for i, task in enumerate(taskseq):\n                    if self._state:\n                        debug('task handler found thread._state != RUN')\n                        break\n                    try:\n",
-     "                if self._state:\n                    break\n                for i, task in enumerate(taskseq):\n                    try:\n", 'R01.7'),
     ('accept-callback-before-bookkeeping', _P, "            self._accepted = True\n            self._time_accepted = time_accepted\n            self._worker_pid = pid\n",
      "            if self._accept_callback:\n                self._accept_callback(pid, time_accepted)\n            self._accepted = True\n            self._time_accepted = time_accepted\n            self._worker_pid = pid\n", 'R03.5'),
     ('send-failure-reads-tag', _P, "                        job, ind = task[1][:2]\n", "                        job, ind = task[:2]\n", 'R01.1'),
